@@ -327,3 +327,62 @@ def r_determinism(rep, f):
     else:
         rep.ok(key, key + ":unsafe", "no unsafe block or static access in the reachable crate code")
     rep.extra["reachable_from_solve_ivp"] = len(reach)
+
+
+def r_zero_span(rep, f):
+    """A zero-length run (x0 == xend) is answered by solve_ivp itself: initial state, Success, all counters zero - the steppers
+    are not built for it (their first step-size test reports StepSizeTooSmall and the derivative evaluations they made are
+    counted).  The shortcut's condition is evaluated numerically at x0 == xend for several magnitudes of the end points, 0
+    included: it must hold at every one."""
+    import pnum
+    from symx import SymExec, Hooks
+    from poly import Poly, DEFS
+    fn = "solve::solve_ivp::solve_ivp"
+    b = f.bodies.get(fn)
+    key = "R-ZERO-SPAN:solve_ivp"
+    if b is None:
+        rep.inconc("R-ZERO-SPAN", key, "solve_ivp not found")
+        return
+    rep.fn(fn)
+    pn = {p_.get("name"): p_.get("id") for p_ in b.get("params", []) if p_.get("k") == "PBind"}
+    if "x0" not in pn or "xend" not in pn:
+        rep.inconc("R-ZERO-SPAN", key, "solve_ivp has no parameters named x0 / xend")
+        return
+    # the shortcut: the first `if` of the body whose condition reads both ends and whose branch returns
+    cands = [i_ for i_ in tast.find(b["body"], lambda z: z.get("k") == "If" and z["cond"].get("k") != "LetExpr")
+             if tast.contains(i_["cond"], lambda q: q.get("k") == "Path" and q.get("id") == pn["x0"]) and tast.contains(i_["cond"], lambda q: q.get("k") == "Path" and q.get("id") == pn["xend"])
+             and tast.contains(i_["then"], lambda q: q.get("k") == "Return")]
+    if not cands:
+        rep.violation("R-ZERO-SPAN", key, "solve_ivp has no shortcut for x0 == xend (an `if` on both end points that returns): a zero-length run reaches the steppers", b.get("sp"))
+        return
+    sx = SymExec(f, fn, Hooks())
+    sx.bind_params()
+    try:
+        sx.eval(b["body"])
+    except Exception as e:
+        rep.inconc("R-ZERO-SPAN", key, "solve_ivp not interpreted: %s" % e)
+        return
+    cond = None
+    for ev in sx.trace:
+        if ev.get("kind") == "if" and ev.get("node") is cands[0]:
+            cond = ev.get("cond")
+            break
+    if not isinstance(cond, Poly):
+        rep.inconc("R-ZERO-SPAN", key, "the shortcut's condition was not evaluated symbolically")
+        return
+    bad = None
+    pts = (0.0, 1.23, -5.0, 1e-300, 1e300, -1e-8)
+    for v in pts:
+        leaf = lambda nm, v=v: v if nm in ("x0", "xend") else 0.5
+        try:
+            r = pnum.value(cond, {}, leaf)
+        except pnum.NoEval as e:
+            rep.inconc("R-ZERO-SPAN", key, "the shortcut's condition %r could not be evaluated at x0 == xend == %r: %s" % (cond, v, e), cands[0].get("sp"))
+            return
+        if r is not True and bad is None:
+            bad = v
+    if bad is not None:
+        rep.violation("R-ZERO-SPAN", key, "the zero-interval shortcut `%s` is false for x0 == xend == %r: the run reaches the stepper, which evaluates the right-hand side, counts it, "
+                      "and ends with its step-size underflow status" % (tast.render(cands[0]["cond"])[:70], bad), cands[0].get("sp"))
+    else:
+        rep.ok("R-ZERO-SPAN", key, "`%s` holds for x0 == xend at %d magnitudes of the end points (0 included)" % (tast.render(cands[0]["cond"])[:60], len(pts)))
